@@ -30,7 +30,7 @@ VERIF_FAIL = [
 ]
 RLIMIT = ("Resource limit (rlimit) exceeded", "while loop: Resource limit")
 
-TAG_RE = re.compile(r"/\*@\s*([C0-9, ]+?)\s*(?:#(\w+))?\s*\*/")
+TAG_RE = re.compile(r"/\*@\s*([C0-9, ]+?)\s*(?:#(\w+))?\s*(?:unless=(\w+))?\s*\*/")
 
 
 def _norm(s, n=70):
@@ -96,7 +96,7 @@ def run_unit(name, repo=None, rlimit=None, outdir=None, extra_args=(), solver=No
     outdir = outdir or os.path.join(VERIF, "build")
     path = extract.write_unit(unit, outdir)
     cmd = ["verus", os.path.basename(path), "--output-json", "--time", "--error-format=json",
-           "--multiple-errors", "12", "--rlimit", str(rlimit or 30), "--num-threads", "4"]
+           "--multiple-errors", "2", "--rlimit", str(rlimit or 30), "--num-threads", "4"]
     if solver == "cvc5":
         cmd += ["-V", "cvc5"]
     cmd += list(extra_args)
@@ -172,7 +172,7 @@ def run_unit(name, repo=None, rlimit=None, outdir=None, extra_args=(), solver=No
             if fn:
                 break
         # tags: nearest /*@..*/ before the highlight on the primary line
-        tags, label = None, None
+        tags, label, unless = None, None, None
         for s in [ps] + [x for x in spans if x is not ps]:
             txt = s["text"][0]["text"] if s.get("text") else ""
             hs = s["text"][0]["highlight_start"] - 1 if s.get("text") else 0
@@ -183,6 +183,7 @@ def run_unit(name, repo=None, rlimit=None, outdir=None, extra_args=(), solver=No
             if best and (hs - best.end()) < 4:
                 tags = [t.strip() for t in best.group(1).split(",") if t.strip()]
                 label = best.group(2)
+                unless = best.group(3)
                 break
         snippet = ""
         if ps.get("text"):
@@ -209,6 +210,7 @@ def run_unit(name, repo=None, rlimit=None, outdir=None, extra_args=(), solver=No
             "label": label or _norm(snippet, 60),
             "id": "%s::%s::%s::%s" % (name, fn["qual"] if fn else "?", kind, label or _norm(snippet, 60)),
             "tags": tags,
+            "unless": unless,
             "message": msg,
             "at": _origin(unit, ps["line_start"]),
             "exit": exit_loc,
@@ -238,6 +240,21 @@ def run_unit(name, repo=None, rlimit=None, outdir=None, extra_args=(), solver=No
             suffix = "::" + f["qual"]
             if not any(n.endswith(suffix) for n in names):
                 hard.append("vacuity: function %s has no verification query" % f["qual"])
+    # ---- split attribution: one run per tagged ensures clause of every function that failed or hit the rlimit
+    if out is not None and os.environ.get("VERIF_NO_SPLIT") != "1":
+        need = set(ob["fn"] for ob in res.failures if ob["fn"] and ob["kind"] == "post")
+        for h in hard:
+            if h.startswith("rlimit"):
+                for f in unit.fns:
+                    if any(("fn %s" % f["name"]) in ln for ln in unit.out_lines[f["out_first"] - 1:f["body_out_first"]]) and f["name"] in h:
+                        need.add(f["qual"])
+                if not need:
+                    need.update(f["qual"] for f in unit.fns)
+        split_fail, split_rl = _split_run(unit, path, outdir, need, rlimit)
+        if split_fail is not None:
+            hard = [h for h in hard if not h.startswith("rlimit")]
+            res.failures = [ob for ob in res.failures if not (ob["kind"] == "post" and ob["fn"] in need)] + split_fail
+            hard.extend(split_rl)
     if hard:
         res.status, res.reason = "inconclusive", "; ".join(hard[:4])
     elif res.failures:
@@ -245,3 +262,84 @@ def run_unit(name, repo=None, rlimit=None, outdir=None, extra_args=(), solver=No
     else:
         res.status = "ok"
     return res
+
+
+def _clause_spans(unit, f):
+    """(label, tags, first_line, last_line) of each tagged ensures clause in the signature region of fn f (1-based, inclusive)."""
+    cl = [c for c in unit.clauses if c["fn"] == f["qual"] and f["out_first"] <= c["out_line"] < f["body_out_first"]]
+    cl.sort(key=lambda c: c["out_line"])
+    spans = []
+    for i, c in enumerate(cl):
+        last = (cl[i + 1]["out_line"] - 1) if i + 1 < len(cl) else f["body_out_first"] - 1
+        spans.append((c["label"], c["tags"], c["out_line"], last, c.get("unless")))
+    return spans
+
+
+def _split_run(unit, path, outdir, fn_quals, rlimit):
+    import concurrent.futures as cf
+    jobs = []
+    for f in unit.fns:
+        if f["qual"] not in fn_quals:
+            continue
+        spans = _clause_spans(unit, f)
+        if len(spans) < 2:
+            continue
+        for k, (label, tags, a, b, unless) in enumerate(spans):
+            lines = list(unit.out_lines)
+            for j, (_, _, a2, b2, _u) in enumerate(spans):
+                if j != k:
+                    for ln in range(a2, b2 + 1):
+                        # blank the clause but keep a trailing token structure: clauses end with ',' so removal is safe
+                        lines[ln - 1] = ""
+            vpath = os.path.join(outdir, "%s_split_%s_%d.rs" % (unit.name, f["name"], k))
+            with open(vpath, "w") as fh:
+                fh.write("\n".join(lines))
+            jobs.append((f, label, tags, a, vpath, unless))
+    if not jobs:
+        return None, []
+
+    def run(job):
+        f, label, tags, a, vpath, unless = job
+        cmd = ["verus", os.path.basename(vpath), "--error-format=json", "--multiple-errors", "1", "--rlimit", str((rlimit or 30) * 2), "--num-threads", "2"]
+        p = subprocess.run(cmd, cwd=outdir, stdout=subprocess.PIPE, stderr=subprocess.PIPE, text=True)
+        failed, rl, rendered, exit_loc = False, False, "", None
+        for ln in p.stderr.splitlines():
+            if not ln.startswith("{"):
+                continue
+            try:
+                d = json.loads(ln)
+            except Exception:
+                continue
+            if d.get("level") != "error":
+                continue
+            msg = d.get("message", "")
+            spans = d.get("spans", [])
+            lines_ = [s_["line_start"] for s_ in spans]
+            if not any(f["out_first"] <= l <= f["out_last"] for l in lines_):
+                continue
+            if any(r in msg for r in RLIMIT):
+                rl = True
+            elif "postcondition not satisfied" in msg and any(l == a or (a <= l) for l in lines_):
+                failed = True
+                rendered = d.get("rendered", "")
+                for s_ in spans:
+                    if not s_.get("is_primary") and s_.get("label"):
+                        exit_loc = "%s (%s)" % (_origin(unit, s_["line_start"]), s_["label"])
+        try:
+            os.remove(vpath)
+        except OSError:
+            pass
+        return job, failed, rl, rendered, exit_loc
+
+    fails, rls = [], []
+    with cf.ThreadPoolExecutor(max_workers=8) as ex:
+        for job, failed, rl, rendered, exit_loc in ex.map(run, jobs):
+            f, label, tags, a, vpath, unless = job
+            if failed:
+                fails.append({"unit": unit.name, "fn": f["qual"], "kind": "post", "label": label,
+                              "id": "%s::%s::post::%s" % (unit.name, f["qual"], label), "tags": tags, "unless": unless,
+                              "message": "postcondition not satisfied (clause verified in isolation)", "at": _origin(unit, a),
+                              "exit": exit_loc, "unit_line": a, "rendered": rendered})
+            elif rl:
+                rls.append("rlimit: clause %s of %s (split run)" % (label, f["qual"]))
+    return fails, rls
